@@ -107,7 +107,9 @@ func c08Deviations() []reqDev {
 		{"int-20-digits", `{"size":12345678901234567890}`}, {"int-negative-big", `{"n":-9223372036854775809}`}, {"exp-1e2", `{"n":1e2}`}, {"exp-1E400", `{"n":1E400}`},
 		{"decimal-30-digits", `{"n":0.100000000000000000000000000001}`}, {"minus-zero", `{"n":-0}`}, {"escapes", `{"s":"é 😀 \/ \\ \" \n"}`}, {"html-chars", `{"s":"<script>&amp;</script>"}`},
 		{"nested", `{"a":{"b":[1,[2,{"c":null}],true,false]},"d":[]}`}, {"duplicate-keys", `{"k":1,"k":2}`}, {"empty-object", `{}`}, {"surrounding-whitespace", " \n\t{ \"k\" : \"v\" }\r\n "},
-		{"unicode-key", `{"ключ":"значение","":0}`}, {"long-string", `{"s":"` + strings.Repeat("x", 70000) + `"}`},
+		{"unicode-key", `{"ключ":"значение","":0}`},
+		{"jwt-claim-exp-in-the-past", `{"exp":1,"k":"v"}`}, {"jwt-claim-nbf-in-the-future", `{"nbf":99999999999}`}, {"jwt-claim-iat-in-the-future", `{"iat":99999999999}`},
+		{"jwt-claims-not-numbers", `{"exp":"soon","nbf":null,"iat":[1],"aud":7,"iss":{}}`}, {"long-string", `{"s":"` + strings.Repeat("x", 70000) + `"}`},
 	} {
 		p := p
 		add("jws-payload-"+p.n, "payload", "jws", func(r *reqSpec) { r.payload = []byte(p.j) })
@@ -157,6 +159,9 @@ func c08Deviations() []reqDev {
 		r.ext = []envenc.ExtAttr{{Key: int64(100), Critical: true, Value: "pos"}, {Key: int64(-5), Critical: false, Value: "neg"}, {Key: int64(15), Critical: true, Value: 7}}
 	})
 	add("cose-ext-int-typed-key", "ext", "cose", func(r *reqSpec) { r.ext = []envenc.ExtAttr{{Key: 1000, Critical: true, Value: "int-typed"}} })
+	add("cose-ext-mixed-integer-types-and-text", "ext", "cose", func(r *reqSpec) {
+		r.ext = []envenc.ExtAttr{{Key: 107, Critical: true, Value: "int"}, {Key: uint16(109), Critical: true, Value: "uint16"}, {Key: int64(111), Critical: false, Value: "int64"}, {Key: "io.example.text", Critical: true, Value: "text"}, {Key: int8(-3), Critical: true, Value: "int8"}}
+	})
 	add("ext-lookalike-keys", "ext", "", func(r *reqSpec) {
 		r.ext = []envenc.ExtAttr{{Key: "io.cncf.notary.signingSchemeX", Critical: true, Value: "x"}, {Key: "io.cncf.notary.signingAgent", Critical: false, Value: "not-the-agent"}}
 	})
@@ -226,6 +231,12 @@ func buildRequest(r *reqSpec) (*signature.SignRequest, *envenc.RemoteSigner, []*
 }
 
 func doSign(media string, req *signature.SignRequest) (env []byte, err error, pan any) {
+	env, _, err, pan = doSignKeep(media, req)
+	return
+}
+
+// doSignKeep also returns the envelope object that signed.
+func doSignKeep(media string, req *signature.SignRequest) (env []byte, obj signature.Envelope, err error, pan any) {
 	defer func() {
 		if r := recover(); r != nil {
 			pan = r
@@ -236,7 +247,7 @@ func doSign(media string, req *signature.SignRequest) (env []byte, err error, pa
 		panic(mc.HarnessError{Msg: nerr.Error()})
 	}
 	env, err = e.Sign(req)
-	return
+	return env, e, err, pan
 }
 
 // signingInputOf recomputes, independently of the library, the bytes a signature of this envelope must cover.
@@ -323,7 +334,7 @@ func c08Body(c *mc.Ctx, media, keyName string) {
 	if r.derive {
 		req = req.WithContext(context.WithValue(context.Background(), callerKey{}, 1))
 	}
-	env, serr, pan := doSign(media, req)
+	env, obj, serr, pan := doSignKeep(media, req)
 	sigOf := func(what string) string { return fmt.Sprintf("C08 %s %s %v", mediaShort(media), what, names) }
 	if pan != nil {
 		c.Outcome("sign-panic")
@@ -386,9 +397,7 @@ func c08Body(c *mc.Ctx, media, keyName string) {
 	}
 	// extended attributes: each once, key, criticality, value through the format's own data model
 	render := func(key any, crit bool, val any) string {
-		if i, ok := key.(int); ok {
-			key = int64(i)
-		}
+		key = normKey(key)
 		if media == envenc.MediaJWS {
 			return fmt.Sprintf("%T:%v|%v|%s", key, key, crit, exactJSON(val))
 		}
@@ -424,6 +433,35 @@ func c08Body(c *mc.Ctx, media, keyName string) {
 			diffs = append(diffs, "emitted signature is not the one the external signer returned")
 		}
 	}
+	// the object that signed reports the same content (key, criticality and value of every attribute included)
+	func() {
+		defer func() {
+			if r := recover(); r != nil {
+				diffs = append(diffs, fmt.Sprintf("signing object panics when read: %v", r))
+			}
+		}()
+		for _, read := range []struct {
+			n string
+			f func() (*signature.EnvelopeContent, error)
+		}{{"Content()", obj.Content}, {"Verify()", obj.Verify}} {
+			oc, oerr := read.f()
+			if oerr != nil {
+				diffs = append(diffs, fmt.Sprintf("signing object %s fails: %v", read.n, oerr))
+				continue
+			}
+			var og []string
+			for _, a := range oc.SignerInfo.SignedAttributes.ExtendedAttributes {
+				og = append(og, render(a.Key, a.Critical, a.Value))
+			}
+			sortStrings(og)
+			if strings.Join(og, "\n") != strings.Join(w, "\n") {
+				diffs = append(diffs, fmt.Sprintf("signing object %s reports extended attributes %v, asked %v", read.n, og, w))
+			}
+			if !bytes.Equal(oc.Payload.Content, content.Payload.Content) || oc.Payload.ContentType != content.Payload.ContentType || !oc.SignerInfo.SignedAttributes.SigningTime.Equal(sa.SigningTime) || !oc.SignerInfo.SignedAttributes.Expiry.Equal(sa.Expiry) {
+				diffs = append(diffs, fmt.Sprintf("signing object %s disagrees with the parsed envelope", read.n))
+			}
+		}
+	}()
 	for _, d := range diffs {
 		c.Fail(fmt.Sprintf("C08 %s %s %v", mediaShort(media), stripDigits(strings.SplitN(d, ":", 2)[0]), names), "variations %v: %s", names, d)
 	}
